@@ -211,6 +211,9 @@ func RunBatch(prop, tier string, seed uint64, start, count int, known map[string
 	if logTo != nil {
 		res.LogHash = hex.EncodeToString(logHash.Sum(nil))
 	}
+	if n := LibSteps(); n > 0 {
+		res.Extra = map[string]int{"go-cose statements executed (yield points passed)": int(n)}
+	}
 	return res
 }
 
